@@ -1533,6 +1533,34 @@ PROPOSED_D = "C07:prefix-declared-on-referencing-wsdl-element"
 # and None for a required nillable child is dropped instead of sent as xsi:nil; with the same type NAMED the
 # ancestry starts at the complexType and xsi:nil is sent
 PROPOSED_E = "C07:optional-element-with-anonymous-type-makes-children-optional"
+# a direct member of the reply that is an EMPTY element of a nillable complex-typed element decodes to ''
+# when the type is named and to None when it is written inline
+KNOWN_F = "C07:empty-nillable-reply-member-named-vs-anonymous-type"
+
+
+def only_empty_vs_none(a, b, where=None, out=None):
+    """Do two canonical decoded values differ ONLY in places where one has '' and
+    the other None?  -> list of member names at which they do, or None when they
+    differ in any other way."""
+    out = [] if out is None else out
+    empty = ("leaf", "Text", "")
+    if a == b:
+        return out
+    if (a is None and b == empty) or (b is None and a == empty):
+        out.append(where)
+        return out
+    if isinstance(a, tuple) and isinstance(b, tuple) and len(a) == len(b) and a and a[0] == b[0]:
+        if a[0] == "obj" and a[1] == b[1] and [k for k, _ in a[2]] == [k for k, _ in b[2]]:
+            for (k, x), (_, y) in zip(a[2], b[2]):
+                if only_empty_vs_none(x, y, k, out) is None:
+                    return None
+            return out
+        if a[0] == "list" and len(a[1]) == len(b[1]):
+            for x, y in zip(a[1], b[1]):
+                if only_empty_vs_none(x, y, where, out) is None:
+                    return None
+            return out
+    return None
 
 
 def toggles(plan, iface):
@@ -1690,6 +1718,20 @@ DIRECTED_ANON = """
   </xsd:sequence></xsd:complexType></xsd:element>"""
 
 
+DIRECTED_REPLY_NAMED = """
+  <xsd:complexType name="T"><xsd:sequence><xsd:element name="a" type="xsd:string" minOccurs="0"/></xsd:sequence></xsd:complexType>
+  <xsd:element name="Wrapper" type="xsd:string"/>
+  <xsd:element name="R"><xsd:complexType><xsd:sequence>
+     <xsd:element name="e" type="tns:T" nillable="true" maxOccurs="unbounded"/></xsd:sequence></xsd:complexType></xsd:element>"""
+DIRECTED_REPLY_ANON = """
+  <xsd:element name="Wrapper" type="xsd:string"/>
+  <xsd:element name="R"><xsd:complexType><xsd:sequence>
+     <xsd:element name="e" nillable="true" maxOccurs="unbounded"><xsd:complexType><xsd:sequence><xsd:element name="a" type="xsd:string" minOccurs="0"/></xsd:sequence></xsd:complexType></xsd:element>
+  </xsd:sequence></xsd:complexType></xsd:element>"""
+DIRECTED_REPLY = (b'<env:Envelope xmlns:env="http://schemas.xmlsoap.org/soap/envelope/"><env:Body>'
+                  b'<R xmlns="my-namespace"><e/><e><a>x</a></e></R></env:Body></env:Envelope>')
+
+
 def run_directed(ck):
     """One fixed instance per run of the two listed classes that the random
     renderings only hit now and then, so that they are re-observed on every seed."""
@@ -1709,6 +1751,24 @@ def run_directed(ck):
         ck.failing_input(PROPOSED_E, "f(e={'a': None}) differs between the named and the anonymous spelling of e's type",
                          {"part": "directed", "named_schema": DIRECTED_NAMED, "anonymous_schema": DIRECTED_ANON,
                           "named": repr(bodies[0]), "anonymous": repr(bodies[1])})
+    # an empty direct reply member of a nillable complex-typed element, type named / written inline
+    decoded = []
+    for sch in (DIRECTED_REPLY_NAMED, DIRECTED_REPLY_ANON):
+        c, err = load_client(U.doc_wsdl(sch, output_element="R"))
+        decoded.append(("load-error", err) if c is None else decode_reply(c, "dummy", "f", DIRECTED_REPLY, set()))
+    ck.seen(("directed", "empty-nillable-reply-member"))
+    ck.count("directed-instances")
+    if decoded[0] != decoded[1]:
+        where = only_empty_vs_none(decoded[0], decoded[1])
+        payload = {"part": "directed", "named_schema": DIRECTED_REPLY_NAMED, "anonymous_schema": DIRECTED_REPLY_ANON,
+                   "reply": DIRECTED_REPLY.decode("utf-8"), "named": repr(decoded[0]), "anonymous": repr(decoded[1])}
+        if where:
+            ck.failing_input(KNOWN_F, "the reply <R><e/><e><a>x</a></e></R> decodes to %r with e's type named and to "
+                             "%r with it written inline" % (decoded[0], decoded[1]), payload)
+        else:
+            ck.failing_input("C07:directed-reply-named-vs-anonymous",
+                             "a reply decodes differently with a type named / written inline, and not just '' "
+                             "against None on the empty member", payload)
     # the prefix of binding= declared on the wsdl:port element itself
     plain = U.doc_wsdl(DIRECTED_NAMED)
     moved = plain.replace(b'<wsdl:port name="dummy" binding="tns:dummy">',
@@ -1798,9 +1858,10 @@ def run_render(ck, unproved):
                 ck.count("dereference-calls")
                 ck.count("dereference-merges", sum(1 for _, ds in call["keys"] if ds))
 
-        def observe_all(label, observe, input_=None):
+        def observe_all(label, observe, input_=None, classify=None):
             """-> list of observations (baseline first); deviating renderings are
-            attributed to a finding class."""
+            attributed to a finding class (`classify(baseline, this)` may name it
+            directly from the shape of the difference)."""
             res, keys = [], []
             for j, (plan, wsdl, c, _) in enumerate(rend):
                 try:
@@ -1812,7 +1873,19 @@ def run_render(ck, unproved):
                 if res[j] != res[0]:
                     d = dict(detail)
                     d["input"] = input_
-                    by_j[j].extend(deviation(iface, rend[j][0], rend[j][1], label, observe, res[0], res[j], d))
+                    direct = classify(res[0], res[j]) if classify else None
+                    if direct:
+                        key, what = direct
+                        ck.count("deviating-renderings")
+                        if key not in deviations:
+                            deviations[key] = {"part": "render", "observable": label, "class": what,
+                                               "rendering_features": sorted(rend[j][0].features()),
+                                               "wsdl": rend[j][1].decode("utf-8"),
+                                               "baseline_wsdl": detail["baseline_wsdl"], "baseline": repr(res[0])[:3000],
+                                               "this_rendering": repr(res[j])[:3000], "input": input_}
+                        by_j[j].append(key)
+                    else:
+                        by_j[j].extend(deviation(iface, rend[j][0], rend[j][1], label, observe, res[0], res[j], d))
                     keys.extend(by_j[j])
             last_by_j[:] = by_j
             return res, keys
@@ -1967,25 +2040,29 @@ def run_render(ck, unproved):
                 if op.style == "wrapped" and op.out_type is not None:
                     I = F.new_interner()
                     E = ObsEnc(S, I)
-                    # A reply member of complex type with neither content nor attributes is the input class of
-                    # the listed finding C02:empty-complex-element-as-empty-string ('' or, "when nillable", None,
-                    # instead of an empty object).  Whether "nillable" is seen there depends on how the type is
-                    # written (Binding.get_reply hands the RESOLVED type of a top-level reply member to the
-                    # unmarshaller: a named type has lost the element's nillable, an anonymous one resolves to
-                    # the element itself), so on that input class renderings differ for the same root cause.
-                    # Replies are generated outside that class; the comparison itself is unchanged.
-                    for attempt in range(12):
-                        v = strip_anon(iface, F.gen_object(rng, S, S.type(*op.out_type), depth=0, typed=False))
-                        empties = []
-                        rx = reply_xml(iface, op, v, empties)
-                        if not empties:
-                            break
+                    v = strip_anon(iface, F.gen_object(rng, S, S.type(*op.out_type), depth=0, typed=False))
+                    empties = []
+                    rx = reply_xml(iface, op, v, empties)
                     if empties:
-                        ck.count("replies-skipped-empty-complex-member")
-                        continue
+                        ck.count("replies-with-empty-complex-member")
+                    # names of the members written as empty elements whose declaration is nillable with a complex type
+                    flat_top = dict((p.name, p) for p, _ in S.flat(S.type(*op.out_type)) if isinstance(p, F.Elem))
+                    empty_nillable = set(tag.split(":")[-1] for tag in empties
+                                         if tag.split(":")[-1] in flat_top
+                                         and flat_top[tag.split(":")[-1]].nillable
+                                         and flat_top[tag.split(":")[-1]].tref[0] == "n")
+
+                    def classify(base, this, empty_nillable=empty_nillable):
+                        # the listed class, and only it: '' against None, at direct reply members that were
+                        # written as empty elements of a nillable complex-typed declaration
+                        where = only_empty_vs_none(base, this)
+                        if where and all(w in empty_nillable for w in where):
+                            return (KNOWN_F, "an empty direct reply member of a nillable complex-typed element decodes "
+                                    "to '' with the type named and to None with the type written inline")
+                        return None
                     ds, keys = observe_all("reply " + op.name,
                                            lambda c, op=op, rx=rx: decode_reply(c, "port_document", op.name, rx, kept),
-                                           rx.decode("utf-8"))
+                                           rx.decode("utf-8"), classify=classify)
                     EC.append(("(mkEC %s)" % clist([E.value(d) for d in ds], "obs"),
                                ("reply " + op.name, keys, si, rx.decode("utf-8"))))
                     ck.seen(("reply", si, op.name, rep))
